@@ -122,19 +122,19 @@ def run(pid):
                 rep.cov["evaluations"] += nm
             checked_total += len(msc)
             total += len(msc)
-        # long walks (C04): KV.tla -simulate histories over the model's three keys with both collectors, time limits for both,
+        # long walks (C04; C02 with four times the reopens): KV.tla -simulate histories over the model's three keys with both collectors, time limits for both,
         # thresholds 0 / 85 / 101 and reopen through snapshot, rescan and a truncated snapshot, executed on the real store
         # (verdict: StoreTrace) and replayed through the mechanism model by StoreMTrace - the model is deterministic given
         # the flush order, so it follows any recorded history, not only those of its own state graph
-        if pid == "C04":
-            w = ["put"] * 6 + ["rem"] * 2 + ["flush"] * 4 + ["idxgc"] * 3 + ["prigc"] * 2 + ["reopen"]
-            nw, dw = (3000, 80) if thorough else (250, 50)
+        if pid in ("C04", "C02"):
+            w = ["put"] * 6 + ["rem"] * 2 + ["flush"] * 4 + ["idxgc"] * 3 + ["prigc"] * 2 + ["reopen"] * (1 if pid == "C04" else 4)
+            nw, dw = (3000, 80) if thorough else ((250, 50) if pid == "C04" else (120, 40))
             kc = seqeng.kv_consts(3, w, dw, deadlines=(0, 0, 1, 2, 3, 5), lowuses=(0, 85, 101))
             hsw, rw = seqeng.gen_histories(kc, "sim", num=nw, seed=vlib.seed() + 57)
             rep.cov["transitions"] += rw.states
             walked = 0
             for wi, (pl, il) in enumerate([(33, 30), (70, 70), (200, 120)] if thorough else [(33, 30), (70, 70)]):
-                wcfg = dict(primary="mh", bits=8, il=il, pl=pl, imm=False, keys=mkeys, vals=seqeng.VALS, proj=True, probe="end")
+                wcfg = dict(primary="mh", bits=8, il=il, pl=pl, imm=False, keys=mkeys, vals=seqeng.VALS, proj=True, probe="end", cmp=(pid == "C02"))
                 part = [{"cfg": wcfg, "ops": fix_ops(wcfg, h)} for h in hsw[wi::(3 if thorough else 2)]]
                 byw, nwl = seqeng.run_and_judge(part, "walk", monitors=[("StoreTrace", None)], keep=True)
                 minew, _ = attribute(spec, part, byw)
